@@ -189,10 +189,24 @@ def spanExponent (l : List Nat) : Int × List Nat :=
     else (0, l)
   | [] => (0, l)
 
-/-- text after the sign that glibc treats specially and this model does not cover: inf / nan / hexadecimal -/
-def floatSpecial : List Nat → Bool
-  | x :: r => x == 105 || x == 73 || x == 110 || x == 78 || (x == 48 && (r.head? == some 120 || r.head? == some 88))
-  | [] => false
+def lower (b : Nat) : Nat := if 65 ≤ b ∧ b ≤ 90 then b + 32 else b
+
+def isHexDigit (b : Nat) : Bool := isDigit b || (97 ≤ lower b && lower b ≤ 102)
+
+/-- text after the sign that glibc treats specially: `nan`, `inf` (any case) and hexadecimal floats are outside this model
+    (`some false`); a text that starts like one of them but is not one makes the conversion fail (`some true`) -/
+def floatSpecial : List Nat → Option Bool
+  | x :: r =>
+    if lower x = 110 then       -- n: "nan" or a matching failure
+      (match r with | a :: n :: _ => if lower a = 97 ∧ lower n = 110 then some false else some true | _ => some true)
+    else if lower x = 105 then  -- i: "inf" or a matching failure
+      (match r with | n :: f :: _ => if lower n = 110 ∧ lower f = 102 then some false else some true | _ => some true)
+    else if x = 48 then
+      (match r with
+       | p :: r' => if lower p = 120 then (match r' with | h :: _ => if isHexDigit h || h == 46 then some false else some true | [] => some true) else none
+       | [] => none)
+    else none
+  | [] => none
 
 /-- scanf `%lf` on decimal text (glibc): white space, sign, digits with at most one `.`, exponent part; the conversion fails
     (`err < 1` → FormatError) at the end of input or when there is no digit.  `inf`/`nan`/hexadecimal input is `unmodelled`. -/
@@ -203,7 +217,8 @@ def scanDouble (input : List Nat) : Res (Nat × List Nat) :=
     let neg : Bool := c = 45
     let i2 := if c = 45 ∨ c = 43 then r else c :: r
     if i2.isEmpty then .raised .FormatError
-    else if floatSpecial i2 then .unmodelled
+    else if floatSpecial i2 = some false then .unmodelled
+    else if floatSpecial i2 = some true then .raised .FormatError
     else
       let m := spanMantissa i2
       -- a lone "." is consumed by glibc too, but with no digit the conversion fails either way
